@@ -83,6 +83,28 @@ void chain_from_plan(const Plan &plan, Chain &c)
 	c.f[n].options = &c.lz; ++n;
 	c.desc += c.lzma1 ? "lzma1" : "lzma2";
 	c.f[n].id = LZMA_VLI_UNKNOWN; c.f[n].options = nullptr;
+
+	if (plan.p("ch_via_string", 0) && c.preset_dict.empty()) {
+		// C06: the same chain given in its textual form
+		char *str = nullptr;
+		if (lzma_str_from_filters(&str, c.f, LZMA_STR_ENCODER, nullptr) == LZMA_OK && str) {
+			lzma_filter g[LZMA_FILTERS_MAX + 1];
+			int errpos = 0;
+			const char *msg = lzma_str_to_filters(str, &errpos, g, 0, nullptr);
+			if (msg == nullptr) {
+				for (int i = 0; g[i].id != LZMA_VLI_UNKNOWN; ++i) {
+					c.f[i].id = g[i].id;
+					if (g[i].id == LZMA_FILTER_LZMA1 || g[i].id == LZMA_FILTER_LZMA2) { c.lz = *(lzma_options_lzma *)g[i].options; c.f[i].options = &c.lz; }
+					else if (g[i].id == LZMA_FILTER_DELTA) { c.delta = *(lzma_options_delta *)g[i].options; c.f[i].options = &c.delta; }
+					else if (g[i].options) { c.bcj = *(lzma_options_bcj *)g[i].options; c.f[i].options = &c.bcj; }
+					else c.f[i].options = nullptr;
+				}
+				lzma_filters_free(g, nullptr);
+				c.desc += "(via string)";
+			}
+			free(str);
+		}
+	}
 }
 
 // ---------------------------------------------------------- artefacts
